@@ -1,6 +1,6 @@
 (* Independent statement of C18 over the abstract units and the recorded call sites. *)
 From Coq Require Import String List Bool Arith Ascii.
-From Coca Require Import Lib.Sx Lib.GoMap Lib.Str Model.CodeModel Model.JavaFull Model.Evaluate
+From Coca Require Import Lib.Sx Lib.GoMap Lib.Str Model.CodeModel Model.GitSummary Model.JavaFull Model.Evaluate
      Model.GitSummarySpec Generated.Constants.
 Import ListNotations.
 Open Scope list_scope.
@@ -8,7 +8,13 @@ Open Scope string_scope.
 
 Definition count_of_name (k : string) (l : list string) : nat := List.length (filter (String.eqb k) l).
 
-(* reference counts: observed as (method, count) rows *)
+Fixpoint strictly_sorted (l : list string) : bool :=
+  match l with
+  | a :: ((b :: _) as r) => str_leb a b && negb (String.eqb a b) && strictly_sorted r
+  | _ => true
+  end.
+
+(* reference counts: observed as (method, count) rows in the order `coca count` lists them *)
 Definition count_verdict (deps : list ds) (obs : list (string * nat)) : list string :=
   let declared := flat_map (fun d => map (func_full_name d) (d_funcs d)) deps in
   let sites := flat_map (fun d => flat_map (fun f => map call_full_name (f_calls f)) (d_funcs d)) deps in
@@ -18,14 +24,13 @@ Definition count_verdict (deps : list ds) (obs : list (string * nat)) : list str
     then [] else ["count_exact"]) ++
    (if forallb (fun s => existsb (fun kv => String.eqb (fst kv) s) obs) resolving then [] else ["count_missing"]) ++
    (if Nat.eqb (list_sum (map snd obs)) (List.length resolving) then [] else ["count_sum"]) ++
-   (if Nat.eqb (List.length obs) (List.length (fold_left (fun acc kv => if str_mem (fst kv) acc then acc else fst kv :: acc) obs []))
-    then [] else ["count_duplicates"]))%list.
+   (if strictly_sorted (map fst obs) then [] else ["count_order"]))%list.
 
 (* evaluation summary, from the abstract units *)
 Definition unit_methods (u : junit) : list jmember := filter (fun m => negb (String.eqb (m_kind m) "field")) (u_members u).
 
 Definition returns_null (m : jmember) : bool :=
-  existsb (fun e => match e with EReturn t => String.eqb t "null" | _ => false end) (m_events m).
+  existsb (fun e => match e with EReturn _ nulltok => nulltok | _ => false end) (m_events m).
 
 Definition is_nullable (m : jmember) : bool :=
   returns_null m || existsb (fun a => String.eqb a "Nullable" || String.eqb a "CheckForNull") (m_annots m).
@@ -49,19 +54,29 @@ Definition summary_verdict (units : list junit) (o : eval_summary) : list string
     then [] else ["utils_count"]) ++
    (if same_set_str (es_nullable o) (spec_nullable units) && nodup_strs_b (es_nullable o) then [] else ["nullable"]))%list.
 
-(* concept words: simple camel-case names split before every capital *)
-Fixpoint camel_words (s : list ascii) (cur : list ascii) : list string :=
+(* concept words.  A name is cut at _ - and blank, between a letter and a digit, before a capital that
+   follows a lower-case letter, and before the last capital of a run of capitals that is followed by a
+   lower-case letter (parseXMLDocument = parse XML Document).  Runs of digits are not words. *)
+Definition is_sep (c : ascii) : bool := Ascii.eqb c "_"%char || Ascii.eqb c "-"%char || Ascii.eqb c " "%char.
+
+Definition boundary (p c : ascii) (next : option ascii) : bool :=
+  (is_lower p && is_upper c) ||
+  (is_upper p && is_upper c && match next with Some n => is_lower n | None => false end) ||
+  (is_letter p && is_digit c) || (is_digit p && is_letter c).
+
+Fixpoint segments (p : ascii) (s : list ascii) (cur : list ascii) : list string :=
   match s with
   | [] => [unchars (rev cur)]
-  | c :: r => if is_upper c then unchars (rev cur) :: camel_words r [lower_ascii c] else camel_words r (c :: cur)
+  | c :: r =>
+    if is_sep c then unchars (rev cur) :: segments c r []
+    else if boundary p c (match r with n :: _ => Some n | [] => None end) then unchars (rev cur) :: segments c r [c]
+    else segments c r (c :: cur)
   end.
 
 Definition words_of_name (name : string) : list string :=
-  filter (fun w => negb (String.eqb w "")) (camel_words (chars name) []).
+  filter (fun w => negb (String.eqb w "") && negb (all_digits w)) (map to_lower (segments "_"%char (chars name) [])).
 
 Definition concept_verdict (units : list junit) (obs : list (string * nat)) : list string :=
   let names := flat_map (fun u => map m_name (unit_methods u)) units in
-  let words := filter (fun w => negb (str_mem w (ENGLISH_STOP_WORDS ++ TechStopWords)%list) && negb (all_digits w))
-                      (flat_map words_of_name names) in
-  ((if Nat.eqb (list_sum (map snd obs)) (List.length words) then [] else ["concept_sum"]) ++
-   (if forallb (fun kv => Nat.eqb (snd kv) (count_of_name (fst kv) words)) obs then [] else ["concept_counts"]))%list.
+  let words := filter (fun w => negb (str_mem w stop_words)) (flat_map words_of_name names) in
+  if Nat.eqb (list_sum (map snd obs)) (List.length words) then [] else ["concept_sum"].
